@@ -87,6 +87,23 @@ def handle : Handler := fun op a =>
         match evalFlat v with
         | none => pure "ub"
         | some l => pure s!"ok shape={fmtNats v.shape} data={fmtFloats l}"
+  | "var" | "stddev" => orBad do
+      let s ← a.nats "shape"
+      let axis ← a.optInts "axis"
+      let keep := (a.get? "keepdims") == some "1"
+      let ddof := ((a.get? "ddof").bind (·.toNat?)).getD 0
+      let data ← dataOf a s
+      let arr : Arr Float := ⟨s, fun i => Float.ofInt ((arrOfData s data).get i)⟩
+      let sqabs := fun (x : Float) => x.abs * x.abs
+      let divn := fun (x : Float) (n : Nat) => x / n.toFloat
+      let r := if op == "var" then var (· + ·) (· - ·) sqabs divn arr axis ddof keep
+               else stddev (· + ·) (· - ·) sqabs Float.sqrt divn arr axis ddof keep
+      match r with
+      | none => pure "ub"
+      | some v =>
+        match evalFlat v with
+        | none => pure "ub"
+        | some l => pure s!"ok shape={fmtNats v.shape} data={fmtFloats l}"
   | "vector_norm" => orBad do
       let s ← a.nats "shape"
       let axis ← a.optInts "axis"
